@@ -43,6 +43,7 @@ const (
 	kFixed
 	kFixedNaN
 	kNoType
+	kFixedSpelled // a positive integer in a spelling other than plain decimal (hexadecimal, binary, digit separators)
 )
 
 // H_C04_fee: the real FeeController.HandlePacket on a ledger, over all amounts, bps values, fixed amounts and
@@ -93,6 +94,10 @@ func H_C04_fee() {
 		case kFixedNaN:
 			fi.FeeType = &actiontypes.FeeInfo_Amount_{Amount: &actiontypes.FeeInfo_Amount{Value: nonNumbers[verif.Choose("nan", len(nonNumbers))]}}
 		case kNoType:
+		case kFixedSpelled:
+			k := verif.Choose("spelling", 3)
+			fixed[i] = math.NewInt([]int64{64, 100, 3}[k])
+			fi.FeeType = &actiontypes.FeeInfo_Amount_{Amount: &actiontypes.FeeInfo_Amount{Value: []string{"0x40", "1_00", "0b11"}[k]}}
 		}
 		infos = append(infos, fi)
 	}
@@ -108,6 +113,7 @@ func H_C04_fee() {
 	zA := verif.ZOf(A)
 	two256 := verif.ZPow2(256)
 	mustRefuse := n > actiontypes.MaxFeeRecipients
+	mayRefuse := false // an amount in an unusual spelling: refusing it is fine, crediting anything but the value it states is not
 	exp := make([]verif.Z, 8) // expected credit of entry i
 	total := verif.ZInt(0)
 	for i := 0; i < n; i++ {
@@ -132,6 +138,9 @@ func H_C04_fee() {
 			} else {
 				exp[i] = verif.ZOf(fixed[i])
 			}
+		case kFixedSpelled:
+			mayRefuse = true
+			exp[i] = verif.ZOf(fixed[i])
 		default:
 			mustRefuse = true
 		}
@@ -146,7 +155,7 @@ func H_C04_fee() {
 
 	if err != nil {
 		verif.Cover("refused")
-		verif.Assert(mustRefuse, "refused-only-for-a-stated-reason")
+		verif.Assert(mustRefuse || mayRefuse, "refused-only-for-a-stated-reason")
 		verif.Assert(len(l.sends) == 0, "nothing-paid-when-refused")
 		verif.Assert(ta.DestinationAmount().Equal(A), "destination-amount-untouched-when-refused")
 		verif.Assert(l.Bal(core.ModuleAddress, "uusdc").Equal(A), "orbiter-balance-untouched-when-refused")
